@@ -187,6 +187,32 @@ class World:
         self.write(rel, text, "restore_page")
         return True
 
+    def replace_page(self):
+        """a page is replaced by another one's file (rename onto an existing name keeps the old modification time), or an
+        older copy is restored with its time stamps (`cp -p`, `rsync -t`): the content changes, the mtime does not move forward"""
+        import os
+
+        files = self.files()
+        if len(files) < 2:
+            return False
+        a, b = self.rng.sample(sorted(files), 2)
+        pa, pb = self.zdir / a, self.zdir / b
+        if self.rng.random() < 0.5:
+            os.replace(pb, pa)
+            self.log.append({"op": "replace_page", "page": a, "by": b, "day": str(self.day)})
+        else:
+            st = pa.stat()
+            lines = files[a].split("\n")
+            self.n += 1
+            lines.append(f"- restored older note {self.n}")
+            text = "\n".join(lines) + "\n"
+            if not self.valid(text):
+                return False
+            pa.write_text(text)
+            os.utime(pa, ns=(st.st_atime_ns, st.st_mtime_ns))
+            self.log.append({"op": "restore_old_copy", "page": a, "day": str(self.day)})
+        return True
+
     def rename_page(self):
         files = self.files()
         if not files:
